@@ -46,6 +46,44 @@ def beyond_the_table():
     return out
 
 
+def written_forms():
+    """the table's values written in their other forms, directly in each position: the NUL character / byte as a
+    literal holding the raw character (the language has no escapes: this is how '\\0' is written), a comparison and
+    a negated comparison (including the unordered ones: NaN) as the condition, double negation"""
+    import itertools
+    from ..past import vfloat, vchar
+    vals = {
+        "raw-nul-char": (lit({"k": "char", "v": 0, "raw": True}), None),
+        "raw-nul-byte": (lit({"k": "byte", "v": 0, "raw": True}), None),
+        "raw-char-a": (lit({"k": "char", "v": 97, "raw": True}), None),
+    }
+    nums = {"nan": lit(vfloat("nan")), "1.0": lit(vfloat(1.0)), "0": I(0), "2": I(2), "inf": lit(vfloat("pinf")), "b1": lit(vbyte(1))}
+    for (an, a), (bn, b) in itertools.product(nums.items(), repeat=2):
+        if "nan" not in (an, bn) and (an, bn) not in (("0", "2"), ("2", "0"), ("1.0", "1.0"), ("b1", "b1"), ("inf", "1.0")):
+            continue
+        for op in ("<", "<=", ">", ">=", "==", "!="):
+            if "b1" in (an, bn) and an != bn:
+                continue
+            vals["cmp %s%s%s" % (an, op, bn)] = (bin_(op, a, b), None)
+            vals["not-cmp %s%s%s" % (an, op, bn)] = (un("!", bin_(op, a, b)), None)
+    out = []
+    pre = [OBS_DECL, fndef("P", ["t", "x"], [obs(ident("t")), expr(ident("x"))])]
+    for tag, (v, _) in vals.items():
+        progs_ = {
+            "not": [obs(un("!", v))],
+            "not-not": [obs(un("!", un("!", v)))],
+            "if-direct": [obs(if_(v, [expr(I(1))], [expr(I(2))]))],
+            "while": [let("n", I(0)), while_(v, [expr(asg(ident("n"), bin_("+", ident("n"), I(1)))),
+                                                 expr(if_(bin_(">=", ident("n"), I(2)), [brk()]))]), obs(ident("n"))],
+            "and-left": [obs(bin_("==", bin_("&&", v, call("P", I(7), I(5))), I(5)))],
+            "or-left": [obs(bin_("==", bin_("||", v, call("P", I(7), I(5))), I(5)))],
+            "via-let": [let("v", v), obs(if_(ident("v"), [expr(I(1))], [expr(I(2))])), obs(un("!", ident("v")))],
+        }
+        for pos, body in progs_.items():
+            out.append(("written-form %s %s" % (tag.replace(" ", "_"), pos), pre + body))
+    return out
+
+
 def logic_in_filter_actions(rep):
     """&& and || keep yielding their operand (not a boolean) inside filter statements: every expression of the pair
     table is printed once at top level and once inside a filter action in the same run; the two lines must agree"""
@@ -91,7 +129,11 @@ def run(rep, tier, seed):
     items = [{"id": c["id"], "prog": c["prog"], "pos": c["pos"], "ta": c["ta"], "tb": c["tb"]} for c in cases]
     for k, (tag, prog) in enumerate(beyond_the_table()):
         items.append({"id": 900000 + k, "prog": prog, "pos": tag.split(" ")[2], "ta": tag.split(" ")[1], "tb": "beyond-table"})
+    for k, (tag, prog) in enumerate(written_forms()):
+        items.append({"id": 950000 + k, "prog": prog, "pos": tag.split(" ")[2], "ta": tag.split(" ")[1].split("_")[0], "tb": "written-form",
+                      "full_tag": tag})
     bad, verdicts = progs.run_and_validate(rep, items, chk=("final",))
+    rep.notes["written_form_cases_settled"] = sum(1 for it in items if it["tb"] == "written-form" and verdicts[it["id"]]["v"] == "ok")
     for it, out, v in bad:
         sig = "truth %s %s %s %s" % (it["pos"], it["ta"], it["tb"], progs.outcome_delta(v["exp"], out))
         rep.disagree(sig, {"src": it["src"], "expected": v["exp"], "got": it["raw"]})
